@@ -1119,3 +1119,19 @@ def no_uninitialised_locals(ctx, rid, functions, floor=1):
         ctx.ob(rid, not bad, f.loc(bad[0][0]) if bad else f.where, "%s reads no indeterminate local" % f.name,
                "" if not bad else "'%s' (declared at %s without an initialiser) is used here before any assignment: for a scalar "
                "type its value is indeterminate" % (bad[0][1], f.loc(bad[0][2])), fn=f.label, inst=f.qname)
+
+
+def no_move_from_callers_object(ctx, rid, functions, floor=1):
+    """A8: a function does not std::move from something it only holds by (non-const lvalue) reference"""
+    from .typestate import moves_from_lvalue_ref
+    ctx.rule(rid, "no std::move of a parameter that is an lvalue reference in this instantiation (a forwarding reference "
+             "must be std::forward-ed: an lvalue argument stays the caller's)", floor=floor)
+    fxb, _ = ctx.fx
+    got = {f.name for f in fxb.functions() if f.qname.startswith("fx::fwd_sink::") and moves_from_lvalue_ref(f)}
+    if "take_moved" not in got or "take_forwarded" in got:
+        ctx.broken("controls fx::fwd_sink: take_moved must be reported, take_forwarded not (reported: %s)" % sorted(got))
+    for f in functions:
+        bad = moves_from_lvalue_ref(f)
+        ctx.ob(rid, not bad, f.loc(bad[0][0]) if bad else f.where, "%s moves from nothing it received as an lvalue reference" % f.name,
+               "" if not bad else "std::move(%s): in this instantiation the argument is the caller's own object (lvalue); it is left "
+               "moved-from although the caller keeps using it" % bad[0][1], fn=f.label, inst=f.qname)
